@@ -186,14 +186,14 @@ Proof. vm_compute. split; reflexivity. Qed.
    SortedSet.RemoveRangeByRank in zset.go on every run (Generated/ZSet.v, fragments
    "F#prefix"): the model's functions are "run the translated fragment, continue with what it
    hands on"; if these statements change in the source, these obligations are re-checked. *)
-From FV Require Import Generated.ZSet C11.Source.
+From FV Require Import Generated.ZSet Lib.GoSem C11.Source.
 
 Theorem c11_src_get_range : forall z start stop reverse,
   zlen (zsl z) < 2 ^ 60 -> - 2 ^ 60 < start < 2 ^ 60 -> - 2 ^ 60 < stop < 2 ^ 60 ->
   get_range z start stop reverse =
   match go_SortedSet_GetRange_prefix (zlen (zsl z)) start stop reverse with
-  | None => OList []
-  | Some (start', stop', reverse', llen, rangeLen) => get_range_rest z reverse' start' llen rangeLen
+  | Returned _ _ => OList []
+  | Reached (start', stop', reverse', llen, rangeLen) => get_range_rest z reverse' start' llen rangeLen
   end.
 Proof. exact src_get_range. Qed.
 Print Assumptions c11_src_get_range.
@@ -202,8 +202,8 @@ Theorem c11_src_rem_by_rank : forall z start stop,
   zlen (zsl z) < 2 ^ 60 -> - 2 ^ 60 < start < 2 ^ 60 -> - 2 ^ 60 < stop < 2 ^ 60 ->
   rem_by_rank z start stop =
   match go_SortedSet_RemoveRangeByRank_prefix (zlen (zsl z)) start stop with
-  | None => (z, OInt 0)
-  | Some (start', stop', llen) => rem_by_rank_rest z start' stop'
+  | Returned _ _ => (z, OInt 0)
+  | Reached (start', stop', llen) => rem_by_rank_rest z start' stop'
   end.
 Proof. exact src_rem_by_rank. Qed.
 Print Assumptions c11_src_rem_by_rank.
@@ -211,7 +211,7 @@ Print Assumptions c11_src_rem_by_rank.
 (* the source's normalisation hands on a valid, non-empty window of ranks *)
 Theorem c11_src_window : forall n start stop reverse s e r llen rl,
   0 <= n < 2 ^ 60 -> - 2 ^ 60 < start < 2 ^ 60 -> - 2 ^ 60 < stop < 2 ^ 60 ->
-  go_SortedSet_GetRange_prefix n start stop reverse = Some (s, e, r, llen, rl) ->
+  go_SortedSet_GetRange_prefix n start stop reverse = Reached (s, e, r, llen, rl) ->
   0 <= s <= e /\ e < n /\ llen = n /\ rl = e - s + 1 /\ r = reverse.
 Proof. exact src_window. Qed.
 Print Assumptions c11_src_window.
